@@ -440,7 +440,7 @@ class EstimationStep(ExecutionStep):
             'niter': self._niter,
             'auto': self._auto,
             'keep_every_nth_iter': self._keep_every_nth_iter,
-            'derivatives': tuple(str(d) for d in self._derivatives),
+            'derivatives': tuple(tuple(str(arg) for arg in der) for der in self._derivatives),
             'predictions': self._predictions,
             'residuals': self._residuals,
             'individual_eta_samples': self._individual_eta_samples,
@@ -452,6 +452,9 @@ class EstimationStep(ExecutionStep):
     def from_dict(cls, d: dict[str, Any]) -> EstimationStep:
         d = dict(d)
         ExecutionStep._adjust_dict(d)
+        d['derivatives'] = tuple(
+            tuple(Expr.symbol(arg) for arg in der) for der in d.get('derivatives', ())
+        )
         return cls(**d)
 
     def __repr__(self):
